@@ -436,7 +436,16 @@ Definition keymap_of (rw : list mrec) (n : nat) (translate : bool) : keymap :=
                           end) rw)
   else km.
 
-Record metadata := { md_keymap : keymap; md_keys : list key }.
+Record metadata := { md_keymap : keymap; md_keys : list key; md_safe : bool }.
+
+(* _safe_for_cache as set by _merge_cursor_description (driver_column_names = False): the metadata of the
+   first execution may be reused for later executions of the cached statement only when it does not depend
+   on the order in which the cursor happens to deliver the columns *)
+Definition safe_for_cache (rcs : list rc) (f : cflags) (desc : list dcol) : bool :=
+  let n := length rcs in
+  if negb (Nat.eqb n 0) && f_ordered f && negb (f_textual_ordered f) && Nat.eqb n (length desc) then true
+  else if f_textual_ordered f || (f_adhoc f && Nat.eqb (length desc) n) then true
+  else false.
 
 Definition build (rcs : list rc) (f : cflags) (desc : list dcol) (translate : bool) : result metadata :=
   match merge rcs f desc with
@@ -446,7 +455,8 @@ Definition build (rcs : list rc) (f : cflags) (desc : list dcol) (translate : bo
       let positional :=
         negb (Nat.eqb n 0) && f_ordered f && negb (f_textual_ordered f) && Nat.eqb n (length desc) in
       Ok {| md_keymap := keymap_of rw n translate;
-            md_keys := if positional then map rc_keyname rcs else map m_key rw |}
+            md_keys := if positional then map rc_keyname rcs else map m_key rw;
+            md_safe := safe_for_cache rcs f desc |}
   end.
 
 (* _key_to_index.get(key) *)
